@@ -9,7 +9,7 @@
 (*    update times, combineLastParts) as a state machine; MC_MsgStore.cfg lets   *)
 (*    TLC explore all arrival orders / gaps and check S => P.                    *)
 (* Field types are restricted to UCH, HEX:n, IGN:n (codec questions: C05-C07).   *)
-EXTENDS EbusSymbols, Integers, TLC
+EXTENDS EbusSymbols, Integers, TLC, FiniteSets
 
 ANY == SYN
 MaxPos == 24            \* ebusd: "the maximum allowed position within master or slave data"
@@ -82,6 +82,37 @@ FieldTexts(fs, data, off) ==        \* texts of the non-ignored fields of one pa
 Decodable(d, md, sd) == Len(md) >= MLen(d) /\ Len(sd) >= SLen(d)
 DecodeText(d, md, sd) == JoinWith(FieldTexts(MFields(d), md, 0) \o FieldTexts(SFields(d), sd, 0), <<59>>)
 HasValues(d) == \E k \in 1..Len(d.fields) : d.fields[k].ty # "IGN"
+
+(* --------------- selecting single fields (decodeLastData with name and/or index) --------------- *)
+(* documented: "fieldName the optional name of a field to limit the output to; fieldIndex the      *)
+(* optional index of the field to limit the output to (either named or overall), or -1".           *)
+(* A field without an explicit name (nm = "") is called f<k>, k = its position in the definition.  *)
+NameOf(d, k) == IF d.fields[k].nm = "" THEN "f" \o ToString(k) ELSE d.fields[k].nm
+NamedFields(d) == [k \in 1..Len(d.fields) |-> [d.fields[k] EXCEPT !.nm = NameOf(d, k)]]
+RECURSIVE NamedTexts(_, _, _)
+NamedTexts(fs, data, off) ==        \* <<name, text>> of the non-ignored fields of one part
+  IF fs = <<>> THEN <<>>
+  ELSE LET f == Head(fs) IN
+       (IF f.ty = "IGN" THEN <<>> ELSE <<<<f.nm, FieldText(f, SubSeq(data, off + 1, off + f.n))>>>>)
+       \o NamedTexts(Tail(fs), data, off + f.n)
+AllNamedTexts(d, md, sd) ==         \* in the order of the whole-message decode: master part, then slave part
+  LET nf == NamedFields(d) IN
+  NamedTexts(SelectSeq(nf, LAMBDA f : FieldPart(d, f) = "m"), md, 0) \o NamedTexts(SelectSeq(nf, LAMBDA f : FieldPart(d, f) = "s"), sd, 0)
+NotFoundText == <<-1>>
+(* name = "-" : no name given; idx = -1 : no index given *)
+SelectText(d, md, sd, name, idx) ==
+  LET all == AllNamedTexts(d, md, sd)
+      sel == IF name = "-" THEN all ELSE SelectSeq(all, LAMBDA p : p[1] = name)
+  IN IF idx < 0 THEN (IF sel = <<>> THEN NotFoundText ELSE JoinWith([k \in 1..Len(sel) |-> sel[k][2]], <<59>>))
+     ELSE IF idx < Len(sel) THEN sel[idx + 1][2] ELSE NotFoundText
+(* all selections worth asking for a definition: every name alone, every name with every index up to one past the *)
+(* last, every overall index up to one past the last, and a name that does not exist                               *)
+Selections(d) ==
+  LET names == {NameOf(d, k) : k \in {x \in 1..Len(d.fields) : d.fields[x].ty # "IGN"}}
+      cnt(nm) == Cardinality({k \in 1..Len(d.fields) : d.fields[k].ty # "IGN" /\ NameOf(d, k) = nm})
+      total == Cardinality({k \in 1..Len(d.fields) : d.fields[k].ty # "IGN"})
+  IN {<<nm, -1>> : nm \in names} \cup UNION {{<<nm, x>> : x \in 0..cnt(nm)} : nm \in names}
+     \cup {<<"-", x>> : x \in 0..total} \cup {<<"nosuch", -1>>, <<"nosuch", 0>>}
 
 (* --------------------- chained part-arrival monitor (P) ------------------ *)
 (* part = [m, s : payload or <<-1>> (absent), tm, ts : arrival time or 0]     *)
